@@ -652,6 +652,14 @@ def run_property(pid, tier, seedval, procs=None, only=None):
         sys.stderr.write('note: %d sub-check run(s) of %s stopped with an exception in harness code on this tree:\n%s\n' % (
             len(soft), pid, '\n---\n'.join(e[:600] for e in soft[:3])))
         stats.notes.append('sub-check runs stopped by an exception in harness code: %d' % len(soft))
+    # vacuity guard: a sub-check that could judge (almost) none of its cases decides nothing.  On the unchanged tree at most 40 % of the
+    # cases of any sub-check are set aside (systems on which no solve converges); if more than 80 % are, something stops the code
+    # under test from producing judgeable results at all, and "no violation" would be an empty statement -> inconclusive (exit 2)
+    vacuous = ['%s: %d of %d cases not judged' % (name, v['skipped'], v['evaluations']) for name, v in stats.per_sub.items()
+               if v['evaluations'] >= 10 and v['skipped'] > 0.8 * v['evaluations']]
+    if vacuous and not stats.failures:
+        sys.stderr.write('HARNESS ERROR in %s: inconclusive, %s (reasons: %s)\n' % (pid, '; '.join(vacuous), dict(stats.skipped)))
+        return EXIT_HARNESS
     # one replay file / VIOLATION line per distinct signature
     seen = {}
     for f in stats.failures:
